@@ -6,5 +6,5 @@ declare -A REV=( [D1]="C09" [D2]="C08" [D3]="C05 C11" [D4]="C16" [D5]="C07" [D7]
 for f in mutants/${1:-*}.diff; do
   n=$(basename $f .diff)
   if [[ $n == revert_* ]]; then props=${REV[${n#revert_}]}; else p=${n%%_*}; props="C${p#c}"; fi
-  tools/run_mutant.sh $f $props 2>&1 | grep -v "^#\|^pkg/" | cut -c1-230
+  tools/run_mutant.sh $f $props 2>&1 | grep -v "^#\|^pkg/" | cut -c1-330
 done
